@@ -45,6 +45,15 @@ func loadEngineTypes(repoDir string) (map[string]*types.Package, error) {
 func checkC02(c *Ctx, r *Report) {
 	defer func() { ruleRegexInventory(c, r, "C02.f", "core/annotations", "common", "core/validators") }()
 	defer checkProcessWideState(c, r, "C02.g")
+	// the router that is served is the file just generated: it replaces the previous one entirely
+	// (a stale tail behind a shorter regeneration registers routes nobody annotated, or does not compile)
+	defer checkArtifactWrites(c, r, "C02.g", "generator/routes.GenerateRoutes")
+	// every file the globs match contributes its controllers (shared with C18.a, C19.d, C20.d)
+	defer func() {
+		if fi, matched := findMatchedSet(c.W); fi != nil && matched != nil {
+			checkGlobSources(c, r, "C02.g", fi, matched)
+		}
+	}()
 	w := c.W
 	r.NotDecided = append(r.NotDecided, "the routers' own matching semantics at run time (trailing slashes, precedence, path cleaning): 'a request reaches that method and no other'", "user template overrides")
 	r.Assume = append(r.Assume, "Handlebars document order = output order; `{{#each}}` emits its program once per element")
